@@ -1,4 +1,4 @@
 From Coq Require Import List NArith Extraction ExtrOcamlBasic.
-From DDP Require Import Lower.Abi.
+From DDP Require Import Lower.Abi Lower.TypeSpelling.
 Extraction Language OCaml.
-Extraction "c18_model.ml" lower_sig lower_sig_imported c_sig abi_of_ir abi_of_c call_plan run init_state temp_indices c_ty ll_ty wf_ty lower_gsig c_gsig call_plan_g loose c_rep ll_rep.
+Extraction "c18_model.ml" lower_sig lower_sig_imported c_sig abi_of_ir abi_of_c call_plan run init_state temp_indices c_ty ll_ty wf_ty lower_gsig c_gsig call_plan_g loose c_rep ll_rep parse_reference_type spelled meant_ty meant_ref.
